@@ -255,7 +255,10 @@ ReqEv(qm, e) ==
          ELSE IF e[3] # qm.res[r] \/ e[4] # qm.slave[r] THEN ReqFail(qm, "C04:waiter-got-another-result")
          ELSE [qm EXCEPT !.st[r] = "idle"]
     [] e[1] = "bad" -> ReqFail(qm, "C04:" \o e[2])
-    [] OTHER -> IF \E r \in 1..Len(qm.st) : qm.st[r] = "todel" THEN ReqFail(qm, "C04:self-deleting-request-not-deleted-after-completion") ELSE qm
+    \* in step mode nothing may happen between the final notify of a self-deleting request and its deletion; in run-mode traces events of
+    \* other threads may be logged in between (the deletion itself is demanded by the client watching its slot)
+    [] OTHER -> IF (\E r \in 1..Len(qm.st) : qm.st[r] = "todel") /\ "runmode" \notin DOMAIN Cfg
+                THEN ReqFail(qm, "C04:self-deleting-request-not-deleted-after-completion") ELSE qm
 
 ReqIdleStep(qm0, qm, evs) ==
   LET synSeen == \E k \in 1..Len(evs) : evs[k][1] = "rx" /\ evs[k][2] = SYN
